@@ -698,7 +698,6 @@ func ruleSeedDomain(c *Ctx) {
 	}
 }
 
-
 func isBLSVerifyCall(info *types.Info, call *ast.CallExpr) bool {
 	f := calleeFunc(info, call)
 	if f == nil || f.Pkg() == nil || !strings.Contains(f.Pkg().Path(), "bls12-381-util") {
@@ -941,13 +940,14 @@ var domainEpochKinds = map[string]string{
 }
 
 // epochKind: what an epoch expression is, with locals read as their last definition before pos:
-//   Epoch@<T>        the Epoch field of a value of named type T (VoluntaryExit), or of the field Target / Source of something
-//   s2e(field.Slot)  SlotToEpoch of a Slot field of a message
-//   s2e(prev)        SlotToEpoch of <slot>.Previous()
-//   s2e(state)       SlotToEpoch of the slot read from the state (a Slot() call)
-//   s2e(param)       SlotToEpoch of a parameter of the function
-//   current          the current epoch of the context / state (CurrentEpoch.Epoch, GetCurrentEpoch / CurrentEpoch calls)
-//   ?…               anything else
+//
+//	Epoch@<T>        the Epoch field of a value of named type T (VoluntaryExit), or of the field Target / Source of something
+//	s2e(field.Slot)  SlotToEpoch of a Slot field of a message
+//	s2e(prev)        SlotToEpoch of <slot>.Previous()
+//	s2e(state)       SlotToEpoch of the slot read from the state (a Slot() call)
+//	s2e(param)       SlotToEpoch of a parameter of the function
+//	current          the current epoch of the context / state (CurrentEpoch.Epoch, GetCurrentEpoch / CurrentEpoch calls)
+//	?…               anything else
 func epochKind(info *types.Info, fd *ast.FuncDecl, e ast.Expr, pos token.Pos, depth int) string {
 	e = ast.Unparen(e)
 	if depth > 4 {
